@@ -124,6 +124,13 @@ def curated():
          tags=['weak', 'groups', 'trigger']))
     a(mk('reenter', [['A', 'C'], 'B'], {'A': 'hy', 'B': 'hy', 'C': 'hy'}, [('A', 'B'), ('B', 'C'), ('A', 'C')],
          tags=['groups', 'trigger', 'delay']))
+    # --- async_requests connections next to ordinary data flow (the destination makes no requests here; scheduling only)
+    a(mk('async2', ['A', 'B'], {'A': 'tb', 'B': 'tb'}, [('A', 'B', {'async': True})], tags=['data', 'async']))
+    a(mk('async2hy', ['A', 'B'], {'A': 'hy', 'B': 'hy'}, [('A', 'B', {'async': True})], tags=['trigger', 'async']))
+    a(mk('async3', ['A', 'B', 'C'], {'A': 'tb', 'B': 'tb', 'C': 'hy'}, [('A', 'B', {'async': True}), ('B', 'C', {'i': 't'})], tags=['data', 'async']))
+    # --- initial events at a later time, self-connection
+    a(mk('ev2_late', ['A', 'B'], {'A': 'ev', 'B': 'ev'}, [('A', 'B'), ('B', 'A', {'k': 1})], init={'A': 1, 'B': 0}, tags=['trigger', 'cycle']))
+    a(mk('selfloop', ['A', 'B'], {'A': 'hy', 'B': 'hy'}, [('A', 'A', {'k': 1}), ('A', 'B')], tags=['trigger', 'cycle', 'self']))
     # --- several entities per simulator
     a(mk('ent2', ['A', 'B'], {'A': 'tb', 'B': 'tb'}, [('A', 'B'), ('A', 'B', {'se': 'f', 'de': 'f'})], tags=['data', 'entities']))
     a(mk('ent2x', ['A', 'B'], {'A': 'tb', 'B': 'tb'}, [('A', 'B', {'se': 'e', 'de': 'f'}), ('A', 'B', {'se': 'f', 'de': 'e', 'k': 1})],
@@ -147,7 +154,7 @@ def curated():
 
 
 def by_name(name):
-    for t in curated() + (generated() if name.startswith('g2.') else []) + (generated_multi() if name.startswith('gm.') else []):
+    for t in curated() + (generated() if name.startswith('g2.') else []) + (generated_multi() if name.startswith('gm.') else []) + (generated3() if name.startswith('g3.') else []):
         if t['name'] == name:
             return t
     raise KeyError(name)
@@ -267,4 +274,47 @@ def generated_multi():
                                 name = f'gm.{ta}{tb_}.{pname}.{o}{i}.{k1}+{k2}' + ('.back' if back else '')
                                 tags = ['generated', 'multi'] + (['weak'] if 'weak' in (k1, k2) else [])
                                 out.append(mk(name, tree, {'A': ta, 'B': tb_}, edges, init=init, tags=tags))
+    return out
+
+
+def generated3():
+    """three-simulator family: chain, fan-in, fan-out, shortcut and shifted ring over all 27 type combinations, each connection
+    plain or shifted by 1 (rings need a shift)"""
+    out = []
+    shapes3 = {
+        'chain': [('A', 'B'), ('B', 'C')],
+        'fanin': [('A', 'C'), ('B', 'C')],
+        'fanout': [('A', 'B'), ('A', 'C')],
+        'short': [('A', 'B'), ('B', 'C'), ('A', 'C')],
+        'ring': [('A', 'B'), ('B', 'C'), ('C', 'A')],
+    }
+    for ta in ('tb', 'ev', 'hy'):
+        for tb_ in ('tb', 'ev', 'hy'):
+            for tc in ('tb', 'ev', 'hy'):
+                types = {'A': ta, 'B': tb_, 'C': tc}
+                for sname, es in shapes3.items():
+                    for shifts in itertools.product((0, 1), repeat=len(es)):
+                        if sname == 'ring' and not any(shifts):
+                            continue
+                        if sname != 'ring' and sum(shifts) > 1:
+                            continue
+                        edges = []
+                        used = {}
+                        for (u, v), k in zip(es, shifts):
+                            o, i = default_kinds(SHORT[types[u]], SHORT[types[v]])
+                            # a second connection into the same simulator uses the second attribute of its kind
+                            n = used.get(v, 0)
+                            used[v] = n + 1
+                            opts = {'o': o, 'i': i + ('2' if n else '')}
+                            if k:
+                                opts['k'] = 1
+                            edges.append((u, v, opts))
+                        init = {}
+                        srcs = {u for u, v in es}
+                        dsts = {v for u, v in es}
+                        for sid, t in types.items():
+                            if t == 'ev' and (sid not in dsts or sname == 'ring' and sid == 'A'):
+                                init[sid] = 0
+                        name = f"g3.{ta}{tb_}{tc}.{sname}.{''.join(map(str, shifts))}"
+                        out.append(mk(name, ['A', 'B', 'C'], types, edges, init=init, tags=['generated', 'three']))
     return out
